@@ -481,4 +481,239 @@ Proof.
       apply (proj1 (Lib_sets.cset_eqb_iff cand ceqb ceqb_spec t s)) in Hts. apply Hts. exact Hcs.
 Qed.
 
+(* ====================== per-ballot editors followed by merge_adjacent ====================== *)
+
+Definition edit (g : ranking -> ranking) (b : ballot) : ballot :=
+  mkBallot (g (rk b)) (wt b) [] (bid b) (vs b).
+
+Lemma rmap_guard : forall (f : ballot -> res ballot) g bs,
+  (forall b, f b = if nonempty (rk b) then ok (edit g b) else err EType) ->
+  ((forall b, In b bs -> rk b <> []) -> rmap f bs = inl (map (edit g) bs)) /\
+  ((exists b, In b bs /\ rk b = []) -> rmap f bs = inr EType).
+Proof.
+  intros f g bs Hf. split.
+  - intros H. apply rmap_total. intros b Hb. rewrite Hf.
+    destruct (rk b) eqn:E; [contradiction (H b Hb)|reflexivity].
+  - induction bs as [|a bs IH]; intros (b & Hb & Hrk); [destruct Hb|].
+    cbn [rmap]. rewrite Hf. destruct (rk a) as [|s r] eqn:E; cbn [nonempty rbind]; [reflexivity|].
+    destruct Hb as [->|Hb]; [congruence|].
+    rewrite IH; [reflexivity|]. exists b. split; assumption.
+Qed.
+
+Lemma rankless_dec : forall bs : list ballot,
+  (forall b, In b bs -> rk b <> []) \/ (exists b, In b bs /\ rk b = []).
+Proof.
+  induction bs as [|a bs [IH|(b & Hb & Hrk)]].
+  - left. intros b [].
+  - destruct (rk a) as [|s r] eqn:E.
+    + right. exists a. split; [left; reflexivity|exact E].
+    + left. intros b [<-|Hb]; [rewrite E; discriminate|apply IH; exact Hb].
+  - right. exists b. split; [right; exact Hb|exact Hrk].
+Qed.
+
+Lemma wtof_rk_map_edit : forall g r bs,
+  wtof_rk r (map (edit g) bs) == wt_where (fun b => ranking_eqb r (g (rk b))) bs.
+Proof.
+  intros g r bs. unfold EditSpec.wtof_rk, EditSpec.wt_where.
+  rewrite filter_map_comm, map_map. reflexivity.
+Qed.
+
+Lemma wt_where_map_edit : forall g (q : ballot -> bool) bs,
+  wt_where q (map (edit g) bs) == wt_where (fun b => q (edit g b)) bs.
+Proof.
+  intros g q bs. unfold EditSpec.wt_where. rewrite filter_map_comm, map_map. reflexivity.
+Qed.
+
+Lemma total_wt_map_edit : forall g bs, total_wt (map (edit g) bs) = total_wt bs.
+Proof. intros g bs. unfold Core.total_wt. rewrite map_map. reflexivity. Qed.
+
+Lemma wtof_rk_filter_ne : forall r' (l : list ballot), nonempty r' = true ->
+  wtof_rk r' (filter (fun b => nonempty (rk b)) l) == wtof_rk r' l.
+Proof.
+  intros r' l Hne. unfold EditSpec.wtof_rk. rewrite filter_filter.
+  rewrite (filter_ext_in _ (fun a : ballot => nonempty (rk a) && ranking_eqb r' (rk a))
+                           (fun a => ranking_eqb r' (rk a))); [reflexivity|].
+  intros a _. destruct (ranking_eqb r' (rk a)) eqn:E; [|apply andb_false_r].
+  apply (ranking_eqb_nonempty cand ceqb) in E. rewrite <- E, Hne. reflexivity.
+Qed.
+
+(* ---------- deduplicate_profiles ---------- *)
+
+Lemma deduplicate_ballot_eq : forall b,
+  deduplicate_ballot b = if nonempty (rk b) then ok (edit (dedup_positions []) b) else err EType.
+Proof. intros b. unfold Cleaning.deduplicate_ballot, edit. destruct (rk b); reflexivity. Qed.
+
+Theorem deduplicate_profiles_spec : forall p : profile,
+  (deduplicate_profiles p = inr EType <-> exists b, In b (ballots p) /\ rk b = []) /\
+  (forall e, deduplicate_profiles p = inr e -> e = EType) /\
+  ((forall b, In b (ballots p) -> rk b <> []) -> exists out, deduplicate_profiles p = inl out) /\
+  (forall out, deduplicate_profiles p = inl out ->
+     (forall r', wtof_rk r' (ballots out) ==
+                 wt_where (fun b => ranking_eqb r' (dedup_positions [] (rk b))) (ballots p)) /\
+     total_wt (ballots out) == total_wt (ballots p) /\
+     (forall b', In b' (ballots out) ->
+        exists b, In b (ballots p) /\ rk b' = dedup_positions [] (rk b)) /\
+     cands out = cast_cands (ballots out)).
+Proof.
+  intros p. unfold Cleaning.deduplicate_profiles.
+  destruct (rmap_guard deduplicate_ballot (dedup_positions []) (ballots p) deduplicate_ballot_eq)
+    as [Hok Herr].
+  destruct (rankless_dec (ballots p)) as [Hall|Hex].
+  - rewrite (Hok Hall). cbn [rbind].
+    destruct (merge_adjacent_spec (map (edit (dedup_positions [])) (ballots p))) as (out & Hout & HF & Hc).
+    rewrite Hout. split; [|split; [|split]].
+    + split; [discriminate|]. intros (b & Hb & Hrk). contradiction (Hall b Hb).
+    + discriminate.
+    + intros _. exists out. reflexivity.
+    + intros out' E. injection E as <-.
+      destruct (merge_adjacent_weights _ _ Hout) as [Hw Ht]. split; [|split; [|split]].
+      * intros r'. rewrite Hw. apply wtof_rk_map_edit.
+      * rewrite Ht, total_wt_map_edit. reflexivity.
+      * intros b' Hb'. destruct (merge_adjacent_rk_in _ _ _ Hout Hb') as (b0 & H0 & Hrk).
+        apply in_map_iff in H0. destruct H0 as (b & <- & Hb). exists b. split; [exact Hb|exact Hrk].
+      * exact Hc.
+  - rewrite (Herr Hex). cbn [rbind]. split; [|split; [|split]].
+    + split; [intros _; exact Hex|reflexivity].
+    + intros e E. injection E as <-. reflexivity.
+    + intros Hall. destruct Hex as (b & Hb & Hrk). contradiction (Hall b Hb).
+    + discriminate.
+Qed.
+
+(* ---------- remove_noncands ---------- *)
+
+Lemma remove_noncands_ballot_eq : forall non b,
+  remove_noncands_ballot non b = if nonempty (rk b) then ok (edit (cleaned non) b) else err EType.
+Proof. intros non b. unfold Cleaning.remove_noncands_ballot, edit. destruct (rk b); reflexivity. Qed.
+
+Theorem cleaned_spec : forall non r,
+  subseq (cleaned non r) r /\
+  distinct_positions (cleaned non r) /\
+  (forall s, In s (cleaned non r) -> noncand_pos non s = false) /\
+  (forall x, In x non -> ~ In [x] (cleaned non r)) /\
+  (forall s, In s r -> noncand_pos non s = false ->
+             exists t, In t (cleaned non r) /\ cset_eqb t s = true) /\
+  (untied r -> untied (cleaned non r) /\ NoDup (flat (cleaned non r)) /\
+               (forall c, In c (flat (cleaned non r)) <-> In c (flat r) /\ ~ In c non)).
+Proof.
+  intros non r. unfold CleanSpec.cleaned.
+  set (kept := filter (fun s => negb (noncand_pos non s)) r).
+  assert (Hsub : subseq (dedup_positions [] kept) r).
+  { eapply subseq_trans; [apply dp_subseq|apply subseq_filter]. }
+  assert (Hnon : forall s, In s (dedup_positions [] kept) -> noncand_pos non s = false).
+  { intros s Hs. apply (subseq_In _ _ _ s (dp_subseq kept [])) in Hs.
+    apply filter_In in Hs. destruct Hs as [_ Hs]. apply negb_true_iff in Hs. exact Hs. }
+  assert (Hcompl : forall s, In s r -> noncand_pos non s = false ->
+             exists t, In t (dedup_positions [] kept) /\ cset_eqb t s = true).
+  { intros s Hs Hn. assert (Hk : In s kept) by (apply filter_In; split; [exact Hs|rewrite Hn; reflexivity]).
+    destruct (dp_complete kept [] s Hk) as [H|H]; [discriminate|exact H]. }
+  split; [exact Hsub|]. split; [apply dp_distinct|]. split; [exact Hnon|]. split; [|split].
+  - intros x Hx Hin. apply Hnon in Hin. unfold CleanSpec.noncand_pos in Hin.
+    assert (H : existsb (fun y => cset_eqb [x] [y]) non = true).
+    { apply existsb_exists. exists x. split; [exact Hx|apply ceq_refl]. }
+    congruence.
+  - exact Hcompl.
+  - intros Hu.
+    assert (Hu' : untied (dedup_positions [] kept)) by (eapply subseq_Forall; [exact Hsub|exact Hu]).
+    split; [exact Hu'|]. split; [apply untied_distinct_NoDup; [exact Hu'|apply dp_distinct]|].
+    intros c. split.
+    + intros Hc. split; [eapply subseq_In; [apply subseq_concat; exact Hsub|exact Hc]|].
+      intros Hcn. apply in_concat in Hc. destruct Hc as (s & Hs & Hcs).
+      pose proof (Hnon s Hs) as Hn. unfold CleanSpec.untied in Hu'. rewrite Forall_forall in Hu'.
+      destruct (Hu' s Hs) as [c' ->]. destruct Hcs as [->|[]].
+      unfold CleanSpec.noncand_pos in Hn.
+      assert (H : existsb (fun y => cset_eqb [c] [y]) non = true).
+      { apply existsb_exists. exists c. split; [exact Hcn|apply ceq_refl]. }
+      congruence.
+    + intros [Hc Hcn]. apply in_concat in Hc. destruct Hc as (s & Hs & Hcs).
+      unfold CleanSpec.untied in Hu. rewrite Forall_forall in Hu.
+      destruct (Hu s Hs) as [c' ->]. destruct Hcs as [->|[]].
+      assert (Hn : noncand_pos non [c] = false).
+      { unfold CleanSpec.noncand_pos. apply not_true_is_false. intros H.
+        apply existsb_exists in H. destruct H as (y & Hy & Hcy).
+        apply (proj1 (Lib_sets.cset_eqb_iff cand ceqb ceqb_spec [c] [y])) in Hcy.
+        destruct Hcy as [Hcy _]. destruct (Hcy c (or_introl eq_refl)) as [->|[]]. contradiction. }
+      destruct (Hcompl [c] Hs Hn) as (t & Ht & Htc).
+      apply in_concat. exists t. split; [exact Ht|].
+      apply (proj1 (Lib_sets.cset_eqb_iff cand ceqb ceqb_spec t [c])) in Htc. apply Htc. left. reflexivity.
+Qed.
+
+Theorem remove_noncands_spec : forall (p : profile) non,
+  (remove_noncands p non = inr EType <-> exists b, In b (ballots p) /\ rk b = []) /\
+  (forall e, remove_noncands p non = inr e -> e = EType) /\
+  ((forall b, In b (ballots p) -> rk b <> []) -> exists out, remove_noncands p non = inl out) /\
+  (forall out, remove_noncands p non = inl out ->
+     (forall r', nonempty r' = true ->
+        wtof_rk r' (ballots out) ==
+        wt_where (fun b => ranking_eqb r' (cleaned non (rk b))) (ballots p)) /\
+     total_wt (ballots p) - total_wt (ballots out) ==
+       wt_where (fun b => negb (nonempty (cleaned non (rk b)))) (ballots p) /\
+     (forall b', In b' (ballots out) ->
+        rk b' <> [] /\ exists b, In b (ballots p) /\ rk b' = cleaned non (rk b)) /\
+     cands out = cast_cands (ballots out)).
+Proof.
+  intros p non. unfold Cleaning.remove_noncands.
+  destruct (rmap_guard (remove_noncands_ballot non) (cleaned non) (ballots p)
+              (remove_noncands_ballot_eq non)) as [Hok Herr].
+  destruct (rankless_dec (ballots p)) as [Hall|Hex].
+  - rewrite (Hok Hall). cbn [rbind].
+    set (l := map (edit (cleaned non)) (ballots p)).
+    destruct (merge_adjacent_spec (filter (fun b : ballot => nonempty (rk b)) l)) as (out & Hout & HF & Hc).
+    rewrite Hout. split; [|split; [|split]].
+    + split; [discriminate|]. intros (b & Hb & Hrk). contradiction (Hall b Hb).
+    + discriminate.
+    + intros _. exists out. reflexivity.
+    + intros out' E. injection E as <-.
+      destruct (merge_adjacent_weights _ _ Hout) as [Hw Ht]. split; [|split; [|split]].
+      * intros r' Hne. rewrite Hw, (wtof_rk_filter_ne r' l Hne). apply wtof_rk_map_edit.
+      * assert (H1 : total_wt l = total_wt (ballots p)) by apply total_wt_map_edit.
+        assert (H3 : wt_where (fun b => negb (nonempty (rk b))) l ==
+                     wt_where (fun b => negb (nonempty (cleaned non (rk b)))) (ballots p)).
+        { unfold l. rewrite wt_where_map_edit. reflexivity. }
+        assert (H4 : wt_where (fun b => nonempty (rk b)) l =
+                     total_wt (filter (fun b : ballot => nonempty (rk b)) l)) by reflexivity.
+        rewrite Ht, <- H1, <- H3, <- H4.
+        rewrite (wt_where_split cand (fun b => nonempty (rk b)) l). ring.
+      * intros b' Hb'. destruct (merge_adjacent_rk_in _ _ _ Hout Hb') as (b0 & H0 & Hrk).
+        apply filter_In in H0. destruct H0 as [H0 Hne].
+        apply in_map_iff in H0. destruct H0 as (b & <- & Hb). split.
+        -- rewrite Hrk. apply nonempty_true_iff. exact Hne.
+        -- exists b. split; [exact Hb|exact Hrk].
+      * exact Hc.
+  - rewrite (Herr Hex). cbn [rbind]. split; [|split; [|split]].
+    + split; [intros _; exact Hex|reflexivity].
+    + intros e E. injection E as <-. reflexivity.
+    + intros Hall. destruct Hex as (b & Hb & Hrk). contradiction (Hall b Hb).
+    + discriminate.
+Qed.
+
+(* ====================== remove_empty_ballots ====================== *)
+
+Theorem remove_empty_spec : forall (p : profile) keep,
+  (forall q, remove_empty_ballots p keep = inl q ->
+     ballots q = filter (fun b => nonempty (rk b)) (ballots p) /\
+     cands q = (if keep then match cands p with [] => cast_cands (ballots q) | cs => cs end
+                else cast_cands (ballots q)) /\
+     total_wt (ballots p) - total_wt (ballots q) == wt_where rankless (ballots p)) /\
+  (forall e, remove_empty_ballots p keep = inr e <-> e = EValue /\ keep = true /\ ~ NoDup (cands p)) /\
+  (keep = false \/ NoDup (cands p) -> exists q, remove_empty_ballots p keep = inl q).
+Proof.
+  intros p keep. unfold Cleaning.remove_empty_ballots.
+  set (bs := filter (fun b : ballot => nonempty (rk b)) (ballots p)).
+  split; [|split].
+  - intros q Hq. apply (mk_profile_ok cand ceqb ceqb_spec) in Hq.
+    destruct Hq as (Hb & Hc1 & Hc2 & _). split; [exact Hb|]. split.
+    + rewrite Hb. destruct keep.
+      * destruct (cands p) as [|c cs] eqn:E; [apply Hc2; reflexivity|apply Hc1; discriminate].
+      * apply Hc2. reflexivity.
+    + rewrite Hb. rewrite (wt_where_split cand (fun b => nonempty (rk b)) (ballots p)).
+      unfold bs, EditSpec.wt_where, Core.total_wt, CleanSpec.rankless. ring.
+  - intros e. split.
+    + intros He. apply (mk_profile_err cand ceqb ceqb_spec) in He. destruct He as [-> Hnd].
+      split; [reflexivity|]. destruct keep; [split; [reflexivity|exact Hnd]|].
+      exfalso. apply Hnd. constructor.
+    + intros (-> & -> & Hnd). apply (mk_profile_dup_iff cand ceqb ceqb_spec). exact Hnd.
+  - intros H. apply (mk_profile_total cand ceqb ceqb_spec).
+    destruct H as [->|H]; [constructor|]. destruct keep; [exact H|constructor].
+Qed.
+
 End WithCand.
